@@ -16,7 +16,9 @@ namespace nmtools::index
         
         auto result = result_t {};
 
-        result = ((float)stop - (float)start) / (endpoint ? num - 1 : num);
+        // num == 1 with endpoint: no step to take (avoid 0/0 -> NaN elements)
+        auto div = (endpoint ? num - 1 : num);
+        result = (div > 0) ? ((float)stop - (float)start) / div : 0;
 
         return result;
     }
